@@ -9,7 +9,8 @@ Open Scope Z_scope.
 Record pstate := mkP {
   p_scc : Z; p_vcc : Z; p_exec : Z; p_m0 : Z; p_pc : Z;
   p_s : list (Z * Z); p_v : list (Z * Z * Z);
-  p_mem : list (Z * Z); p_lds : list (Z * Z)   (* bytes: memory touched by the run, the whole LDS for DS cases *)
+  p_vc : list (Z * list Z);                     (* VGPR columns: (register, its values in lanes 0..63) *)
+  p_mem : list (Z * list Z); p_lds : list (Z * list Z)   (* byte runs (start, bytes): memory touched by the run, the whole LDS for DS cases *)
 }.
 
 Record case := mkCase {
@@ -24,9 +25,25 @@ Fixpoint lookup (l : list (Z * Z)) (i : Z) : Z :=
 Fixpoint lookup2 (l : list (Z * Z * Z)) (a b : Z) : Z :=
   match l with [] => 0 | (k1, k2, v) :: t => if (k1 =? a) && (k2 =? b) then v else lookup2 t a b end.
 
+Fixpoint lookupc (cs : list (Z * list Z)) (l r : Z) : option Z :=
+  match cs with
+  | [] => None
+  | (k, vs) :: t => if k =? r then Some (nth (Z.to_nat l) vs 0) else lookupc t l r
+  end.
+Fixpoint lookupr (rs : list (Z * list Z)) (x : Z) : Z :=
+  match rs with
+  | [] => 0
+  | (b, vs) :: t => if (b <=? x) && (x <? b + Z.of_nat (length vs)) then nth (Z.to_nat (x - b)) vs 0 else lookupr t x
+  end.
+(** all values of a run / column agree with [f] from index [b] on *)
+Fixpoint chk (eqv : Z -> Z -> bool) (f : Z -> Z) (b : Z) (vs : list Z) : bool :=
+  match vs with [] => true | v :: t => eqv (f b) v && chk eqv f (b + 1) t end.
+
 Definition to_state (p : pstate) : state :=
-  mkState (lookup (p_s p)) (lookup2 (p_v p)) (p_exec p) (p_vcc p) (p_scc p) (p_m0 p) (p_pc p)
-          (lookup (p_mem p)) (lookup (p_lds p)).
+  mkState (lookup (p_s p))
+          (fun l r => match lookupc (p_vc p) l r with Some v => v | None => lookup2 (p_v p) l r end)
+          (p_exec p) (p_vcc p) (p_scc p) (p_m0 p) (p_pc p)
+          (lookupr (p_mem p)) (lookupr (p_lds p)).
 
 (** instructions whose VGPR result is a binary32 value: NaN results are compared
     as a class (payloads are outside the model) *)
@@ -44,8 +61,9 @@ Definition agrees_f (fl : bool) (st : state) (p : pstate) : bool :=
   (pc st =? p_pc p) &&
   forallb (fun kv => sgpr st (fst kv) =? snd kv) (p_s p) &&
   forallb (fun kv => veq fl (vgpr st (fst (fst kv)) (snd (fst kv))) (snd kv)) (p_v p) &&
-  forallb (fun kv => mem st (fst kv) =? snd kv) (p_mem p) &&
-  forallb (fun kv => lds st (fst kv) =? snd kv) (p_lds p).
+  forallb (fun cv => chk (veq fl) (fun l => vgpr st l (fst cv)) 0 (snd cv)) (p_vc p) &&
+  forallb (fun bv => chk Z.eqb (mem st) (fst bv) (snd bv)) (p_mem p) &&
+  forallb (fun bv => chk Z.eqb (lds st) (fst bv) (snd bv)) (p_lds p).
 Definition agrees (st : state) (p : pstate) : bool := agrees_f false st p.
 
 Definition is_vector (f : format) : bool :=
